@@ -398,6 +398,13 @@ func init() {
 			if !it.catSeen[t] {
 				it.catSeen[t] = true
 				it.sol.assert("(=> " + t + " (bvuge (len " + st + ") " + bvLit(int64(len(cp)), 64) + "))")
+				if len(cp) > 0 {
+					if !it.sol.decl["char0"] {
+						it.sol.decl["char0"] = true
+						it.sol.send("(declare-fun char0 (Str) (_ BitVec 8))")
+					}
+					it.sol.assert("(=> " + t + " (= (char0 " + st + ") " + bvLit(int64(cp[0]), 8) + "))")
+				}
 				// distinct prefixes none of which is a prefix of another are mutually exclusive
 				for _, o := range it.prefixes[st] {
 					if !strings.HasPrefix(o, cp) && !strings.HasPrefix(cp, o) {
